@@ -7,7 +7,6 @@ NA = {
  "C04": "Compares a matrix of transcendental entries with finite-difference sensitivities of a float integrator within the size of neglected terms; numeric tolerance is the whole content.",
  "C15": "Order of accuracy as the sampling interval shrinks is a limit statement; the row/stamp clause is part of the C19 schema check.",
  "C16": "Identities between transcendental functions over a continuum (geodetic round trips, derivatives, parity); no state, no exact domain.",
- "C17": "Trig round trips, exponential-map accuracy across a branch threshold and a Jacobian identity are numeric-accuracy claims with no discrete structure.",
 }
 CHECKS = {
  "C02": dict(
@@ -77,6 +76,11 @@ CHECKS.update({
 })
 
 CHECKS.update({
+ "C17": dict(
+   text="Partial claim - the exact part. Attitude.tla models the attitude representations on the cube group: all 64 (roll, pitch, heading) triples of quarter turns, the 12 quarter turns about coordinate axes and the 8 thirds of a turn about body diagonals, as integer matrices. TLC checks that the Euler matrix Rz Ry Rx the code uses is a proper rotation and satisfies the DOCUMENTED convention stated independently of the product formula (NoseDirection: the body x axis points to (cos h cos p, sin h cos p, -sin p) - heading positive north-to-east, pitch positive nose-up; DownInBody: NED down seen from the body is (-sin p, cos p sin r, cos p cos r) - roll positive right-wing-down; the three named conventions literally), RoundTrip away from pitch +-90 (with the principal-range answer for pitch 180), EulerIsAxisProduct / ExpAxisGroupLaw / DiagCubed / Sense tying Euler angles and rotation vectors together. Every configuration is replayed on transform.mat_from_rph (single, list, stacked), transform.mat_to_rph and the integrator's compiled mat_from_rotvec (1e-15). On seeded general inputs the harness additionally evaluates eight numeric predicates that need no external oracle: proper rotation, the closed forms of the convention, the round trip, and for mat_from_rotvec the one-parameter-group law M(sv)M(tv) = M((s+t)v) with M'(0) = skew (which characterises the exponential map), orthonormality, no jump across the small-angle branch. The Jacobian clause (attitude error -> Euler error) is decided under C05 by ErrorTransform.tla at pitch 0.",
+   note="Exactly decided on the cube group only. The numeric predicates (tolerances 1e-14 / 4e-15, 10-20 ulp; observed maxima 1.3e-15 / 5e-16) are computed by the harness, not by TLC, and are labelled as such in the evidence; 'to machine precision for every rotation vector' and the Jacobian at non-zero pitch are not decided.",
+   technique="TLA+ model of the cube group (Attitude.tla) checked exhaustively with TLC + replay of every enumerated element into the real conversion routines; group-law / closed-form predicates on seeded general inputs",
+   ref="DESIGN.md s6 C17"),
  "C05": dict(
    text="ErrorTransform.tla describes the error-state coordinates on an exact domain (cube-group attitudes with pitch 0, integer velocities, both altitude modes) twice: transform_to_output / transform_to_internal as the code writes them ([[I,0,0],[0,I,skew(v)],[0,0,J]], its block inverse, the 2D variants through the 9x7 / 7x9 reduction matrices), and the first-order change of the state under the library's own correction (p (-) DR, (I + phi x)(v - DV), (I + phi x) C) read in output coordinates, where the Euler-angle Jacobian is DERIVED from the differentials of atan2 / asin of the rotation-matrix entries in integer algebra. TLC checks in every configuration OutputIsDerivative, JOrthogonal, LeftInverse (both modes), Rows2DZero, Dims and rejects a sign-slip variant. Every configuration is then built with the real InsErrorModel: both transforms == the model (attitude rows x 180/pi, attitude columns of the inverse x pi/180: the units), their real product == I, the derivative of the REAL correct_pva read through the REAL compute_state_difference == transform_to_output (central difference; integer entries after removing the unit factor, so the comparison is a rounding), perturb_pva followed by correct_pva with the corresponding internal vector restores the state to SECOND order (the order is measured from three scales and rounded - a discrete observable), in 2D a correction leaves altitude and VD bit-identical and the down/VD rows are exactly zero, stacked form == per-row form, label-permuted Pva.",
    note="Decided on the exact domain only: the Euler-angle Jacobian at non-zero pitch and behaviour near the pitch singularity are numeric and not decided; components of the restore residual below the representation floor (1e-7 m, 1e-11) are not judged.",
@@ -89,7 +93,7 @@ CHECKS.update({
    ref="DESIGN.md s6 C11"),
 })
 
-ORDER = ["C02", "C05", "C06", "C07", "C08", "C09", "C10", "C11", "C12", "C13", "C14", "C18", "C19"]
+ORDER = ["C02", "C05", "C06", "C07", "C08", "C09", "C10", "C11", "C12", "C13", "C14", "C17", "C18", "C19"]
 m = {
  "version": 1,
  "setup_cmd": "true",
